@@ -122,9 +122,61 @@ def cache_view(sc):
     return [[[rank[k[0]], k[1]], (list(v['mem_obj']) if v['mem_obj'] is not None else None)] for k, v in items]
 
 
-def run_pipeline(sc, pipe, table):
+def lineage(r):
+    seen, todo, out = set(), [r], []
+    while todo:
+        x = todo.pop()
+        if id(x) in seen or not hasattr(x, '__dict__'):
+            continue
+        seen.add(id(x))
+        out.append(x)
+        for k in ('prev', 'rdd', '_rdd'):
+            if hasattr(x, k):
+                todo.append(getattr(x, k))
+        for k in ('rdds',):
+            for y in getattr(x, k, None) or []:
+                todo.append(y)
+    return out
+
+
+# attributes the current code still (re)binds on the shared PersistedRDD object from inside the tasks. They are DEAD
+# stores (the model's `stepNew` writes `attrCid` and nothing reads it); `dead_stores_are_dead` checks on the source
+# that nothing reads them.
+WRITE_ONLY = {'PersistedRDD': {'_cid', '_cache_manager'}}
+
+
+def dead_stores_are_dead(repo):
+    """-> None, or a description of a READ of one of the write-only attributes"""
+    import ast
+    import os
+    tree = ast.parse(open(os.path.join(repo, 'pysparkling', 'rdd.py')).read())
+    for n in ast.walk(tree):
+        if isinstance(n, ast.Attribute) and n.attr == '_cid' and isinstance(n.ctx, ast.Load):
+            return 'rdd.py:%d reads ._cid' % n.lineno
+    for c in ast.walk(tree):
+        if isinstance(c, ast.ClassDef) and c.name == 'PersistedRDD':
+            for n in ast.walk(c):
+                if isinstance(n, ast.Attribute) and n.attr == '_cache_manager' and isinstance(n.ctx, ast.Load) \
+                        and isinstance(n.value, ast.Name) and n.value.id == 'self':
+                    return 'rdd.py:%d PersistedRDD reads self._cache_manager' % n.lineno
+    return None
+
+
+def shared_fingerprint(r):
+    """which attributes the dataset objects of the lineage have and which objects they are bound to: the tasks of a
+    thread pool share these objects, so any attribute they (re)bind is state shared between tasks"""
+    return [(type(x).__name__, sorted((k, id(v)) for k, v in vars(x).items()
+                                      if not k.startswith('_p') and k != '_partitions' and k not in WRITE_ONLY.get(type(x).__name__, ())))
+            for x in lineage(r)]
+
+
+def run_pipeline(sc, pipe, table, fingerprints=None):
     r = build(sc, pipe, table)
-    return [act(r, a, table) for a in pipe['actions']], cache_view(sc)
+    before = shared_fingerprint(r) if fingerprints is not None else None
+    out = [act(r, a, table) for a in pipe['actions']]
+    if fingerprints is not None:
+        fingerprints.append((before, shared_fingerprint(r)))
+    return out, cache_view(sc)
 
 
 class C03(Prop):
@@ -270,19 +322,22 @@ class C03(Prop):
         for b in BACKENDS:
             for pipe in (base, samp, coal, nested):
                 out.append({'kind': 'backend', 'pipe': pipe, 'backend': b, 'seed': 1})
+        out.append({'kind': 'deadstores'})
         for b in ('sched', 'thread', 'mp+cloudpickle', 'ppe+dill', 'reversed'):
             out.append({'kind': 'model', 'n': 3, 'data': list(range(9)), 'fraction': .5, 'seed': 4, 'backend': b, 'order': [2, 0, 1],
                         'preempt': [[5, 0], [40, 1]]})
         return out
 
     def nontrivial(self, case):
+        if case['kind'] == 'deadstores':
+            return False
         if case['kind'] == 'model':
             return len(case['data']) >= 2
         p = case['pipe']
         return len(p['data']) >= 2 and any(o['op'] in ('persist', 'sample') for o in p['ops'])
 
     def shrink(self, case):
-        if case['kind'] == 'model':
+        if case['kind'] in ('model', 'deadstores'):
             return
         p = case['pipe']
         for i in range(len(p['ops'])):
@@ -302,6 +357,13 @@ class C03(Prop):
     def run_case(self, case, ctx):
         if case['kind'] == 'model':
             return self.run_model(case, ctx)
+        if case['kind'] == 'deadstores':
+            import core
+            bad = dead_stores_are_dead(core.REPO)
+            if bad:
+                return Mismatch('an attribute the tasks write on the shared dataset object is read again (the model treats it '
+                                'as a dead store): ' + bad, bad, None, 'C03:shared:dead-store-read', relation='model-only')
+            return None
         pipe = case['pipe']
         for o in pipe['ops']:
             ctx.note('op:' + o['op'])
@@ -326,8 +388,9 @@ class C03(Prop):
             sc, table = self.backend(bk, case.get('seed', 0))
             label = bk
             pool = None
+        fps = [] if case['kind'] == 'sched' else None
         try:
-            got = run_pipeline(sc, pipe, table)
+            got = run_pipeline(sc, pipe, table, fps)
         except Exception as e:  # pylint: disable=broad-except
             got = exc(e)
         finally:
@@ -345,6 +408,10 @@ class C03(Prop):
         if got[1] != want[1]:
             return Mismatch('%s: cache contents after the job differ from the in-process executor' % label, got[1], want[1],
                             'C03:cache:' + (label if case['kind'] == 'backend' else 'sched'), relation='spec')
+        if fps and fps[0][0] != fps[0][1]:
+            diff = [(a, b) for a, b in zip(*fps[0]) if a != b][:2]
+            return Mismatch('%s: the tasks (re)bound attributes of the dataset objects all threads share' % label, diff, None,
+                            'C03:shared:attributes', relation='model-only')
         if pyrandom.getstate() != glob_before:
             return Mismatch('%s: the tasks changed the module-global random generator (shared by all threads)' % label, None, None,
                             'C03:shared:random', relation='model-only')
